@@ -343,9 +343,26 @@ def registered_toplevel_bases():
         @stix2.v21.CustomExtension(EXT_B, [("tl_note", P.StringProperty()), ("tl_flag", P.BooleanProperty())])
         class ExtB(object):
             extension_type = "toplevel-property-extension"
+    EXT_C = "extension-definition--" + V4[:-2] + "ca4"
+    if EXT_C not in R:
+        # a registered toplevel extension whose OWN properties are of kinds that can carry custom content (hashes, references, embedded objects)
+        from stix2.v21.vocab import HASHING_ALGORITHM
+        @stix2.v21.CustomExtension(EXT_C, [("tl_hashes", P.HashesProperty(HASHING_ALGORITHM, spec_version="2.1")), ("tl_ref", P.ReferenceProperty(invalid_types=[], spec_version="2.1")),
+                                           ("tl_erefs", P.ListProperty(stix2.v21.ExternalReference))])
+        class ExtC(object):
+            extension_type = "toplevel-property-extension"
     g = gen.Gen("2.1")
     tl = {"extension_type": "toplevel-property-extension"}
     out = []
+    bi = g.minimal("objects:identity")
+    MD5 = "d41d8cd98f00b204e9800998ecf8427e"
+    out.append((None, "own-kinds/plain", dict(bi, tl_hashes={"MD5": MD5}, tl_ref="identity--" + V4 + "a", tl_erefs=[{"source_name": "s", "url": "http://u"}], extensions={EXT_C: dict(tl)})))
+    out.append(("unknown-hash", "own-kinds/unknown-hash-in-own-property", dict(bi, tl_hashes={"FOO-HASH": "aa"}, extensions={EXT_C: dict(tl)})))
+    out.append(("unknown-hash-first", "own-kinds/unknown-hash-then-spec-hash", dict(bi, tl_hashes={"FOO-HASH": "aa", "MD5": MD5}, extensions={EXT_C: dict(tl)})))
+    out.append(("ref-to-unregistered-type", "own-kinds/ref-to-unregistered-type-in-own-property", dict(bi, tl_ref="x-nowhere--" + V4 + "a", extensions={EXT_C: dict(tl)})))
+    out.append(("x-property", "own-kinds/x-property-in-embedded-object-of-own-property", dict(bi, tl_erefs=[{"source_name": "s", "url": "http://u", "x_foo": 1}], extensions={EXT_C: dict(tl)})))
+    out.append(("x-property", "own-kinds/custom-own-property-next-to-plain-one", dict(bi, tl_hashes={"MD5": MD5}, tl_erefs=[{"source_name": "s", "x_foo": 1, "url": "http://u"}], tl_ref="identity--" + V4 + "a",
+                                                                                      extensions={EXT_C: dict(tl)})))
     for key in ("objects:identity", "observables:file", "objects:relationship"):
         b = g.minimal(key)
         if key.startswith("observables"):
